@@ -2068,7 +2068,7 @@ def _compute_arg_mapping(
         if n not in replaced and not isinstance(n, _Bound | _Resources)
     ]
     deps = _unique(args + preds)
-    deps_names = _names(deps)
+    deps_names = _consumed_names(graph, [*replaced, node])
     if deps_names in arg_set:
         return
     arg_set.add(deps_names)
@@ -2076,6 +2076,20 @@ def _compute_arg_mapping(
     for func in _filter_funcs(deps):
         new_args = [dep for dep in deps if dep != func]
         _compute_arg_mapping(graph, func, head, new_args, [*replaced, node], arg_set)
+
+
+def _consumed_names(graph: nx.DiGraph, expanded: list[PipeFunc]) -> tuple[str, ...]:
+    """Names that have to be provided when the functions in ``expanded`` are executed.
+
+    Only the outputs of a multi-output function that are actually consumed are listed.
+    """
+    names: set[str] = set()
+    for func in expanded:
+        for pred, _, arg in graph.in_edges(func, data="arg"):
+            if pred in expanded or isinstance(pred, _Bound | _Resources):
+                continue
+            names.update(at_least_tuple(arg))
+    return tuple(sorted(names))
 
 
 def _traverse_graph(
